@@ -570,6 +570,10 @@ theorem lLength_eq (l : PList) : lLength l = l.length := by
     | nil => rfl
     | cons y ys => simp only [lLength, ih, List.length_cons]
 
+/-- the source fact the translator pins (`tools/extract.py`, refusing any other text): every function of phashtable.c and
+    plist.c is the text this model was written from, and neither file has file-scope state -/
+theorem container_source_as_modelled : Generated.containerShapesAsModelled = true := by decide
+
 /-! ## non-vacuity -/
 example : WF empty := wf_empty
 example : (run empty [.ins 0 5, .ins 0xFFFFFFFFFFFFFFFF 6, .ins 0x7FFFFFFF 7, .get 0x7FFFFFFF, .rem 0, .get 0]).isSome := by
